@@ -211,6 +211,10 @@ impl Ctx {
             // a zero-sized pull must leave the iterator unchanged, an extreme one must behave mathematically
             also.push("C16");
         }
+        if class == "never-destroyed" && !faulty && primary != "C15" {
+            // an element that is never destroyed keeps whatever heap memory it owns: a leak of the consumed collection
+            also.push("C15");
+        }
         if matches!(class, "duplicate" | "handed-twice") && self.cfg.kind.consuming() && primary != "C08" {
             also.push("C08");
         }
